@@ -467,6 +467,12 @@ def c08f(chk):
                 fmt_bbs.add(b)
     bare = [b for b in f.reachable_from(arms["Error"], avoid=fmt_bbs) if f.term(b)["k"] == "return"] if fmt_bbs else ["?"]
     ok = ok and not bare
+    for b, pieces, phs, t in an.format_calls(f):
+        if b in fmt_bbs:
+            r_ = an.contig_then_position(f, t, phs)
+            if r_ is not None:
+                chk.ob("C08.f", "Runner::run/Error-arm-shows-position-next-to-contig", r_[0], f.loc(b),
+                       "the site is named as contig followed by its position, nothing displayed in between (%s)" % r_[1])
     chk.ob("C08.f", "Runner::run/Error-arm-names-contig-and-position", ok, f.loc(arms["Error"]),
            "the error must display current_contig() and current_position() on every path out of the arm (sources %s; returns reachable without such a message: %s)" % (sorted(srcs), [f.loc(b) if b != "?" else b for b in bare]))
     RC.no_partial_output(chk, "C08.f", RC.CREATE_RUN, RC.RUNNER_RUN, [RC.WRITE_STDOUT])
